@@ -569,10 +569,14 @@ Fixpoint list_eqb (a b : list string) : bool :=
 
 Definition leaked (l : list string) : list string := filter (fun s => negb (ok_secretb s)) l.
 
+(* the positions the model prunes are nil in the real state *)
+Definition pruned_are_nil (c : val) : bool :=
+  forallb (fun p => match vget cfg_structs root_ty c p with Some (_, VNil) => true | None => true | _ => false end) pruned_root.
+
 Definition c20_case_ok (k : c20_case) : bool :=
   let c := taint cfg_structs root_ty (k_conf k) in
   let raw := leaked (jsecrets (raw_endpoint 64 c)) in
-  (list_eqb (sort_set raw) (sort_set (k_raw_markers k))
+  (pruned_are_nil (k_conf k) && list_eqb (sort_set raw) (sort_set (k_raw_markers k))
    && forallb (fun x =>
                  match x with
                  | (e, body_markers, live_written) =>
